@@ -53,12 +53,22 @@ def cext_call(vm, fn, args, kwargs, node):
         # element.copy_from(message): callee contract (this module) -- may raise TypeError for a foreign type
         vm.store(fn.owner, '_ghost_copied_from', args[0])
         return None
+    if isinstance(fn, OpaqueFn) and fn.attr == 'validate_copy_from':
+        # the element type's own check of the source: accepts, or raises ProphyError; reads only
+        if vm.choose(2) == 1:
+            raise PyRaise(PROPHY_ERROR, ('wrong type',))
+        return None
     return NotImplemented
 
 
 def cext_getattr(vm, obj, attr):
     if isinstance(obj, SRef) and attr == 'copy_from' and not obj.t.eq(vm.state['self'].t):
         return OpaqueFn(obj, 'copy_from')
+    if isinstance(obj, OpaqueType) and obj.tag == 'elem' and attr == 'validate_copy_from':
+        return OpaqueFn(obj, 'validate_copy_from')
+    if isinstance(obj, SRef) and attr == '_fields' and not obj.t.eq(vm.state['self'].t):
+        # the field map of a source message: only its emptiness can matter to this function
+        return SBool(z3.Function('has_fields_set', Ref, z3.BoolSort())(obj.t))
     return HOOKS['getattr'](vm, obj, attr)
 
 
@@ -278,6 +288,16 @@ def sf_isinstance(vm, x, c):
     names = [getattr(k, 'name', None) for k in (c if isinstance(c, tuple) else (c,))]
     if x is st['rhs'] and 'base_array' in names:
         return st['kind'] == 'array'
+    if x is st['rhs'] and set(names) <= {'struct', 'union'} and names:
+        # a composite value is a struct or a union (either, for the universally quantified rhs); nothing else is one
+        if st['kind'] != 'composite':
+            return False
+        if set(names) == {'struct', 'union'}:
+            return True
+        if 'rhs_is_struct' not in st:
+            st['rhs_is_struct'] = vm.fresh('rhs_is_struct', z3.BoolSort())
+        b = st['rhs_is_struct']
+        return vm.decide(b if names[0] == 'struct' else z3.Not(b))
     return NotImplemented
 
 
